@@ -1706,7 +1706,10 @@ func (p *BinaryProtocol) WriteAnyWithDesc(desc *TypeDescriptor, val interface{},
 	case BYTE:
 		v, ok := val.(byte)
 		if !ok {
-			if !cast {
+			if i8, isInt8 := val.(int8); isInt8 {
+				// int8 is what ReadAnyWithDesc returns for BYTE unless byteAsUint8 is set
+				v = byte(i8)
+			} else if !cast {
 				return errDismatchPrimitive
 			} else {
 				vv, err := primitive.ToInt64(val)
